@@ -261,6 +261,9 @@ class Walker:
                 v_ = self.sym(kw.value, st)
                 if kw.arg is None and v_[0] == 'kwdict':
                     kwl.extend(v_[1])
+                elif kw.arg is None and v_[0] == 'call' and v_[1] == 'dict' and not v_[2] and all(k is not None for k, _ in v_[3]):
+                    # f(**dict(a=x, b=y)) is f(a=x, b=y)
+                    kwl.extend(v_[3])
                 elif kw.arg is None and v_[0] == 'dict' and all(is_const(k) and isinstance(k[1], str) for k, _ in v_[1]):
                     # f(**{'a': x, 'b': y}) is f(a=x, b=y)
                     kwl.extend((k[1], val) for k, val in v_[1])
@@ -1582,6 +1585,11 @@ class Walker:
         """Nested loop: first-match search idiom is expanded; anything else runs its body zero or one time with the
         variables it assigns havoc'd; events inside are tagged."""
         it = self.sym(node.iter, st)
+        if it[0] == 'name' and len(it) == 2 and it[1] not in st.env and it[1] not in self.facts.consts:
+            # a module-level table written as a literal sequence (rows with non-constant cells: dict(...) option sets, classes)
+            lit = self.module_literal(it[1])
+            if lit is not None and lit[0] in ('list', 'tuple'):
+                it = lit
         keys = self.search_keys(node, it, st)
         if keys is None:
             objs = self.search_objects(node, it, st)
